@@ -567,7 +567,7 @@ def ugrid(rng, *, w=None, h=None, start_index=None, fill=None, transposed=None, 
         if edim not in ds.sizes:
             # the edge dimension is declared but no connectivity variable uses it: give it a size
             # through a data variable (a dimension no variable uses has no size in xarray)
-            ds['edge_marker'] = xarray.DataArray(numpy.arange(ne, dtype='f8') + 0.5, dims=[edim])
+            ds['edge_marker'] = xarray.DataArray(numpy.arange(ne, dtype='f8') + 7000, dims=[edim])
     spec = {'nodes': nodes, 'faces': faces, 'edge_node': edge_node, 'face_edge': face_edge,
             'edge_face': edge_face, 'face_face': face_face, 'supplied': sorted(supplied), 'enc': enc,
             'has_edge_dim': has_edge_dim, 'edge_dim_declared': 'edge_dimension' in mesh_attrs,
